@@ -75,7 +75,13 @@ func setConfigOnce() {
 func newAppOn(db dbm.DB, home string) *app.App {
 	setConfigOnce()
 	opts := simtestutil.AppOptionsMap{flags.FlagHome: home}
-	return app.New(log.NewNopLogger(), db, nil, true, opts, baseapp.SetChainID(chainID))
+	bo := []func(*baseapp.BaseApp){baseapp.SetChainID(chainID)}
+	if os.Getenv("VERIF_DISABLE_FASTNODE") != "" {
+		// diagnostic only (known finding F16): with IAVL's fast-node index off, listing queries at a height no
+		// longer see the next height
+		bo = append(bo, baseapp.SetIAVLDisableFastNode(true))
+	}
+	return app.New(log.NewNopLogger(), db, nil, true, opts, bo...)
 }
 
 // NewChain builds an app, runs InitChain with nAccts funded accounts (and optional per-module genesis
@@ -207,7 +213,13 @@ type TxSpec struct {
 }
 
 func (c *Chain) acctNumSeq(addr sdk.AccAddress) (uint64, uint64) {
-	ctx := c.DeliverCtx()
+	// between blocks there is no deliver state: read the last committed state
+	var ctx sdk.Context
+	if c.InBlock {
+		ctx = c.DeliverCtx()
+	} else {
+		ctx = c.QueryCtx()
+	}
 	acc := c.App.AccountKeeper.GetAccount(ctx, addr)
 	if acc == nil {
 		return 0, 0
